@@ -62,6 +62,13 @@ def cases(tier: str, seed: int) -> list[dict]:
                 ev.append(e)
             for policy in ("error", "drop", "fill"):
                 ev.append({"a": "ExtractDF", "ps": ps, "policy": policy, "dim": pick(["point", "obs"])})
+        # the corners of the last cell (on the far rim of the model) together with points just beyond them
+        rim = [list(p) for p in (GW.abstract_polys(w)[-1] or [])]
+        if rim:
+            beyond = [[p[0] + 3, p[1] + 3] for p in rim[:2]]
+            for policy in ("error", "drop", "fill"):
+                ev.append({"a": "ExtractDF", "ps": rim + beyond, "policy": policy, "dim": pick(["point", "obs"])})
+            ev.append({"a": "SelectPoints", "ps": rim, "policy": "drop", "dim": pick(["point", "station"])})
         # exactly one miss, at the first / at the last position of the request
         inner = GW.inner_points(w)
         if inner:
